@@ -304,7 +304,7 @@ class RankedToPresenceCounts:
         """Convert ranked votes to simple votes, disregarding rank."""
         output = collections.defaultdict(int)
         for cand, rank_i, n_votes in votelib.util.all_rankings(votes):
-            output[cand] += votes
+            output[cand] += n_votes
         return dict(output)
 
 
